@@ -1,4 +1,5 @@
 import Driver.L0
+import Driver.L1
 open Clap.Driver
 
 def dispatch (line : String) : String :=
@@ -6,6 +7,9 @@ def dispatch (line : String) : String :=
   | [] => "bad-op"
   | cmd :: args =>
     match handleL0 cmd args with
+    | some r => r
+    | none =>
+    match handleL1 cmd args with
     | some r => r
     | none => "bad-op"
 
